@@ -62,17 +62,19 @@ fn cover_body<const N: usize>() {
     let cin = covered_by::<N>(&input, y);
     let cout = covered_by::<N>(&out, y);
     assert!(cin == cout);
-    // output: valid cells, pairwise distinct
-    let a: usize = kani::any();
-    let b: usize = kani::any();
-    kani::assume(a < out.len() && b < out.len() && a != b);
-    assert!(spec_valid(out[a]));
-    assert!(out[a] != out[b]);
     // a merge needs at least 4 siblings
     kani::cover!(N < 4 || out.len() < N);
     kani::cover!(out.len() == N);
     kani::cover!(cin);
     kani::cover!(!cin);
+    // output: valid cells, pairwise distinct
+    let a: usize = kani::any();
+    let b: usize = kani::any();
+    kani::assume(a < out.len() && b < out.len());
+    assert!(spec_valid(out[a]));
+    if a != b {
+        assert!(out[a] != out[b]);
+    }
     core::mem::forget(out);
 }
 
@@ -88,6 +90,24 @@ macro_rules! c08_cover {
         }
     };
 }
+/// Same harness with `cell_to_parent` ↦ `parent_model` (see c10.rs).
+macro_rules! c08_cover_m {
+    ($name:ident, $n:expr) => {
+        #[kani::proof]
+        #[kani::unwind(14)]
+        #[kani::stub(alloc::fmt::format, fmt_stub)]
+        #[kani::stub(core::slice::sort::unstable::sort, sort_inner_small)]
+        #[kani::stub(a5::core::serialization::get_resolution, res_stub)]
+        #[kani::stub(a5::core::serialization::cell_to_parent, parent_model)]
+        pub fn $name() {
+            cover_body::<$n>();
+        }
+    };
+}
+c08_cover_m!(c08_cover_4m, 4);
+c08_cover_m!(c08_cover_5m, 5);
+c08_cover_m!(c08_cover_6m, 6);
+c08_cover_m!(c08_cover_7m, 7);
 c08_cover!(c08_cover_2, 2);
 c08_cover!(c08_cover_3, 3);
 c08_cover!(c08_cover_4, 4);
@@ -133,6 +153,61 @@ pub fn c08_group4_merges() {
     core::mem::forget(out);
 }
 
+/// Near-complete group: three of the four children of any parent plus one arbitrary valid cell
+/// (another sibling, a descendant of the missing sibling, an ancestor, an unrelated cell …), handed
+/// over unsorted: coverage is preserved — in particular no *false* merge happens — and the group is
+/// merged exactly when the fourth cell is the missing sibling.
+#[kani::proof]
+#[kani::unwind(14)]
+#[kani::stub(alloc::fmt::format, fmt_stub)]
+#[kani::stub(core::slice::sort::unstable::sort, sort_inner_small)]
+#[kani::stub(a5::core::serialization::get_resolution, res_stub)]
+#[kani::stub(a5::core::serialization::cell_to_parent, parent_model)]
+pub fn c08_near_group4() {
+    warm();
+    assume_unique_mode();
+    let p = any_valid_cell_res(1, 28);
+    let ip = ser(&p);
+    let miss: u64 = kani::any();
+    kani::assume(miss < 4);
+    let x: u64 = kani::any();
+    kani::assume(spec_valid(x) && res_stub(x) >= 0);
+    let mut input = [0u64; 4];
+    let mut w = 0;
+    let mut k = 0u64;
+    while k < 4 {
+        if k != miss {
+            let c = spec_child(ip, k);
+            kani::assume(x != c);
+            input[w] = c;
+            w += 1;
+        }
+        k += 1;
+    }
+    input[3] = x;
+    let out = match a5::compact(&input) {
+        Ok(v) => v,
+        Err(_) => {
+            assert!(false);
+            return;
+        }
+    };
+    let y: u64 = kani::any();
+    kani::assume(spec_valid(y) && res_stub(y) == 29);
+    assert!(covered_by::<4>(&input, y) == covered_by::<4>(&out, y));
+    let full = x == spec_child(ip, miss);
+    if full {
+        assert!(out.len() == 1 && out[0] == ip);
+    } else {
+        // four distinct cells of which only three are siblings: nothing can merge
+        assert!(out.len() == 4);
+    }
+    kani::cover!(full);
+    kani::cover!(!full && spec_covers(spec_child(ip, miss), x));
+    kani::cover!(!full && spec_covers(x, ip));
+    core::mem::forget(out);
+}
+
 fn compact_ok(v: &[u64]) -> Option<Vec<u64>> {
     match a5::compact(v) {
         Ok(o) => Some(o),
@@ -156,8 +231,9 @@ fn any_two_cells() -> (u64, u64) {
 #[kani::proof]
 #[kani::unwind(14)]
 #[kani::stub(alloc::fmt::format, fmt_stub)]
-#[kani::stub(core::slice::sort::unstable::sort, sort_inner_small)]
+#[kani::stub(core::slice::sort::unstable::sort, sort_inner_small4)]
 #[kani::stub(a5::core::serialization::get_resolution, res_stub)]
+#[kani::stub(a5::core::serialization::cell_to_parent, parent_model)]
 pub fn c08_prelude_swap() {
     warm();
     let (a, b) = any_two_cells();
@@ -188,8 +264,9 @@ pub fn c08_prelude_swap() {
 #[kani::proof]
 #[kani::unwind(14)]
 #[kani::stub(alloc::fmt::format, fmt_stub)]
-#[kani::stub(core::slice::sort::unstable::sort, sort_inner_small)]
+#[kani::stub(core::slice::sort::unstable::sort, sort_inner_small4)]
 #[kani::stub(a5::core::serialization::get_resolution, res_stub)]
+#[kani::stub(a5::core::serialization::cell_to_parent, parent_model)]
 pub fn c08_prelude_dup() {
     warm();
     let (a, b) = any_two_cells();
@@ -252,6 +329,7 @@ fn unsorted_body<const N: usize>() {
 #[kani::stub(alloc::fmt::format, fmt_stub)]
 #[kani::stub(core::slice::sort::unstable::sort, sort_inner_small)]
 #[kani::stub(a5::core::serialization::get_resolution, res_stub)]
+#[kani::stub(a5::core::serialization::cell_to_parent, parent_model)]
 pub fn c08_unsorted_4() {
     unsorted_body::<4>();
 }
